@@ -542,6 +542,8 @@ type pstate struct {
 	bools  map[string]*item // decoder: local holding a bool that was read (flag of an optional)
 	vars   map[string][]string // variable name -> path it denotes (loop variables, element temporaries)
 	types  map[string]typeRef  // static type of such variables (to find the methods called on them)
+	nils   map[string]bool     // decoder: locals explicitly reset to nil (an absent optional value)
+	flagOf map[string][]*fx    // decoder: optional flags named after the local their branch fills, resolved when the local is stored
 	idx    map[string][]string // loop index variable -> path of the slice it indexes
 	depth  int
 }
@@ -558,12 +560,14 @@ func (s *pstate) restore(saved *pstate) {
 	}
 	c := saved.clone()
 	s.ints, s.flags, s.locals, s.counts, s.bools, s.vars, s.types, s.idx = c.ints, c.flags, c.locals, c.counts, c.bools, c.vars, c.types, c.idx
+	s.nils, s.flagOf = c.nils, c.flagOf
 }
 
 // enter starts a callee scope: only the bindings of its receiver survive
 func (s *pstate) enter(bind map[string][]string, types map[string]typeRef) {
 	s.ints, s.flags, s.locals, s.counts, s.bools = map[string]int64{}, map[string]*fx{}, map[string]*item{}, map[string]*item{}, map[string]*item{}
 	s.vars, s.types, s.idx = map[string][]string{}, map[string]typeRef{}, map[string][]string{}
+	s.nils, s.flagOf = map[string]bool{}, map[string][]*fx{}
 	for k, v := range bind {
 		s.vars[k] = v
 	}
@@ -598,6 +602,13 @@ func cloneItems(items []*item, st *pstate) []*item {
 func (s *pstate) clone() *pstate {
 	c := &pstate{ints: map[string]int64{}, flags: map[string]*fx{}, locals: map[string]*item{}, counts: map[string]*item{},
 		bools: map[string]*item{}, vars: map[string][]string{}, types: map[string]typeRef{}, idx: map[string][]string{}, depth: s.depth}
+	c.nils, c.flagOf = map[string]bool{}, map[string][]*fx{}
+	for k, v := range s.nils {
+		c.nils[k] = v
+	}
+	for k, v := range s.flagOf {
+		c.flagOf[k] = append([]*fx{}, v...)
+	}
 	for k, v := range s.types {
 		c.types[k] = v
 	}
@@ -1424,6 +1435,14 @@ func (wk *walker) ifStmt(s *ast.IfStmt, rest []ast.Stmt, cont []frame, st *pstat
 	if negated {
 		thenS, elseS = elseS, thenS
 	}
+	// a flag that announces a value read into a LOCAL is named when that local is stored in a field
+	var pendingFlag *fx
+	if (flagItem.f.kind == "local" || flagItem.f.kind == "anon") && firstFilled(thenS, wk, st) == nil && firstFilled(elseS, wk, st) == nil {
+		if ln := firstLocalAssigned(thenS); ln != "" {
+			pendingFlag = &fx{kind: "has", path: []string{"$flag:" + ln}}
+			st.flagOf[ln] = append(st.flagOf[ln], pendingFlag)
+		}
+	}
 	// thenS runs when the wire bool is true
 	a, err := wk.block(thenS, k, st.clone())
 	if err != nil {
@@ -1438,6 +1457,8 @@ func (wk *walker) ifStmt(s *ast.IfStmt, rest []ast.Stmt, cont []frame, st *pstat
 		// name the flag after the first field that only one of the two branches fills
 		fa, fb := firstFilled(thenS, wk, st), firstFilled(elseS, wk, st)
 		switch {
+		case pendingFlag != nil:
+			flag = pendingFlag
 		case fa != nil && (fb == nil || !samePath(fa, fb)):
 			flag = &fx{kind: "has", path: fa}
 		case fa == nil && fb != nil:
@@ -1478,6 +1499,20 @@ func (wk *walker) constBoolWrite(stmts []ast.Stmt) (bool, bool) {
 		return false, false
 	}
 	return id.Name == "true", true
+}
+
+// firstLocalAssigned: name of the first local that receives the value of a call (x, err = f(..)) in a statement list
+func firstLocalAssigned(stmts []ast.Stmt) string {
+	for _, s := range stmts {
+		if as, ok := s.(*ast.AssignStmt); ok && len(as.Rhs) == 1 {
+			if _, isCall := as.Rhs[0].(*ast.CallExpr); isCall && len(as.Lhs) >= 1 {
+				if id, ok := as.Lhs[0].(*ast.Ident); ok && id.Name != "_" && id.Name != "err" {
+					return id.Name
+				}
+			}
+		}
+	}
+	return ""
 }
 
 func samePath(a, b []string) bool { return strings.Join(a, "\x00") == strings.Join(b, "\x00") }
@@ -1994,6 +2029,7 @@ func (wk *walker) emitRead(it *item, targets []ast.Expr, st *pstate, b *blk, at 
 		if _, isVar := st.vars[id.Name]; !isVar {
 			it.f = &fx{kind: "local", local: id.Name}
 			st.locals[id.Name] = it
+			delete(st.nils, id.Name)
 			if it.prim == "PVarInt" {
 				it.opts = repOpts{cap: "None"}
 				st.counts[id.Name] = it
@@ -2099,7 +2135,13 @@ func (wk *walker) storeElem(s ast.Stmt, slice []string, elem ast.Expr, st *pstat
 			}
 			return nil // replaced by the current element when the loop ends
 		}
+		for _, fl := range st.flagOf[id.Name] {
+			fl.path = append([]string{}, to...) // the optional's flag announces this field
+		}
 		it := st.locals[id.Name]
+		if it == nil && st.nils[id.Name] {
+			return nil // reset to nil and not read on this path: the field stays absent
+		}
 		if it != nil && it.f != nil && it.f.kind == "path" && samePath(it.f.path, to) {
 			return nil // the sibling branch of an optional already stored this very value in the same field
 		}
@@ -2179,6 +2221,16 @@ func (wk *walker) assign1(s *ast.AssignStmt, lhs, rhs ast.Expr, st *pstate, b *b
 			}
 			substPrefix(b, []string{alias}, p)
 			return nil
+		}
+	}
+	// local = nil : the local now denotes an absent optional value
+	if id, ok := lhs.(*ast.Ident); ok && wk.side == decSide {
+		if r, ok := rhs.(*ast.Ident); ok && r.Name == "nil" && id.Name != "_" && id.Name != "err" {
+			if _, isVar := st.vars[id.Name]; !isVar {
+				delete(st.locals, id.Name)
+				st.nils[id.Name] = true
+				return nil
+			}
 		}
 	}
 	// local definitions
@@ -3031,7 +3083,8 @@ func (w *world) translateMethod(pk *pkgInfo, fd *ast.FuncDecl, sd side, prefix [
 		return nil, &opaque{reason: "no body"}
 	}
 	st := &pstate{ints: map[string]int64{}, flags: map[string]*fx{}, locals: map[string]*item{}, counts: map[string]*item{},
-		bools: map[string]*item{}, vars: map[string][]string{}, types: map[string]typeRef{}, idx: map[string][]string{}}
+		bools: map[string]*item{}, vars: map[string][]string{}, types: map[string]typeRef{}, idx: map[string][]string{},
+		nils: map[string]bool{}, flagOf: map[string][]*fx{}}
 	b, err := wk.block(fd.Body.List, nil, st)
 	if err != nil {
 		return nil, err
